@@ -104,10 +104,47 @@ def _has_forward(t):
     return False
 
 
+def primitive_leaves(chk, tier):
+    """'every attribute holds a value of its annotated type' at integer positions when the JSON number is written as an
+    integral double (the int hook accepts 3.0): the attribute / every array element must come back as an int"""
+    from vlib import leafrt, xh
+
+    ls = []
+    for c in leafrt.field_cases().values():
+        rng = ["%d <= x <= %d" % (c.detail["lo"], c.detail["hi"])] if c.kind in ("int", "int_array") else []
+        if c.kind == "int" and c.direct:
+            ls.append(xh.Lemma("dbl_%s" % c.id, [("x", "int")], ["return R.int_from_double_ok(%r, x)" % c.id], pre=rng, meta={"site": "%s given as an integral double holds an int" % c.site, "case": c.id}))
+        elif c.kind == "int_array":
+            ls.append(xh.Lemma("arr_%s" % c.id, [("x", "int"), ("y", "int")], ["return R.int_array_from_doubles_ok(%r, x, y)" % c.id], pre=rng + [r.replace("x", "y") for r in rng], meta={"site": "%s elements given as ints / integral doubles are ints" % c.site, "case": c.id}))
+    results, stats = xh.run(ls, ["from vlib import leafrt as R", "R.field_cases()"], timeout=120 if tier == "thorough" else 45, label="c03p", extra_env={"VERIF_REAL_FLOATS": "1"})
+    chk.ev.add_counts(xh.summarize(results))
+    chk.ev.coverage["solver_seconds"] += stats["cpu_s"]
+    by_id = {l.id: l for l in ls}
+    fc = leafrt.field_cases()
+    for lid, r in results.items():
+        l = by_id[lid]
+        if r.verdict == "inconclusive":
+            chk.inconc("%s: %s" % (l.meta["site"], r.message[:160]))
+        elif r.verdict == "refuted":
+            c = fc[l.meta["case"]]
+            a = r.args
+            ok = leafrt.int_from_double_ok(c.id, a["x"]) if lid.startswith("dbl_") else leafrt.int_array_from_doubles_ok(c.id, a["x"], a["y"])
+            if not ok:
+                v = float(a["x"]) if lid.startswith("dbl_") else [a["x"], float(a["y"]), float(a["x"])]
+                code = (
+                    "import json\nfrom lsprotocol import converters, types\nfrom vlib import replay\nJ = json.loads(%r)\n"
+                    "def replay_():\n    c = converters.get_converter(); T = types.%s\n    o = c.structure(J, T)\n    r = replay.well_typed(o, T)\n    return (r is None, r or 'ok')\nreplay = replay_\n"
+                ) % (__import__("json").dumps(dict(c.template, **{c.wire: v})), c.name)
+                chk.violation("%s: structuring %r succeeds but the result is ill-typed" % (l.meta["site"], v), {"kind": "python", "code": code, "site": l.meta["site"], "args": a})
+            else:
+                chk.harness_error("counterexample for %s did not reproduce" % lid)
+
+
 def check(tier):
     chk = runner.Check("C03", tier)
     dispatch_check.run(chk, "C03", tier)
     field_table(chk)
+    primitive_leaves(chk, tier)
     chk.ev.coverage["stubs"] = ["converter.structure(obj, attrs class) and _structure_func.dispatch(attrs class) return a Dispatched(cls, obj) token (the cut; recursive descent is replaced by the class lemma of the chosen class)", "format(symbolic, '') -> '<sym>'", "cattrs code generation under NoTracing", "handler lookup memoised outside tracing (lru_cache bypass)"]
     chk.ev.coverage["outside_bounds"] = ["values nested deeper than the bound below a union as seen by a hook (covered by the induction of DESIGN 3.5, not by a lemma)", "arrays longer than the bound at hook-inspected positions", "strings longer than the bound"]
     chk.ev.assumptions += ["cattrs generic machinery (_structure_list/_dict/_tuple/_optional, _unstructure_union, primitive coercion) behaves as documented (exercised concretely by the root round trips)", "CrossHair 0.0.110 and z3 5.1 are sound"]
